@@ -137,8 +137,9 @@ CHECKS = {
         "level": "exploration",
         "tests": [
             {"pkg": "kvx", "run": "^TestC17_Content$", "quick": 3000, "thorough": 80000},
+            {"pkg": "leaderx", "run": "^TestC17_Stream$", "quick": 800, "thorough": 30000},
         ],
-        "floors": {"trim_removed": 0.1},
+        "floors": {"trim_removed": 0.08, "resumed_from_last_seen": 0.05},
         "rule": "rapid state machine over a real kv.DB with notifications enabled: generated write requests (puts+deletes of one "
                 "key, range deletes, session create/close requests, empty requests), reads of the stored notification "
                 "batches from drawn offsets (resume), trimming rounds through the verif hook under an injected clock with "
@@ -146,7 +147,7 @@ CHECKS = {
                 "timestamp, and content equal to the model's net effect of the request (keys written with resulting "
                 "version id and created/modified type, removed keys covered by a delete or range entry, nothing for "
                 "untouched or internal keys); after a trim every batch with timestamp > now-retention is still served. "
-                "Non-trivial: an interior resume after a reopen, or a trim that removed something.",
+                "Non-trivial: an interior resume after a reopen, or a trim that removed something. Second generator (TestC17_Stream, leaderx): a real RF=1 leaderController with notifications enabled; rapid state machine of writes (generated requests and no-op requests), up to 4 GetNotifications subscribers opened 'from now' or after a drawn offset, subscriber reconnects from the last offset seen, and up to 2 leader restarts (close, reopen, next term) after which every subscriber reconnects from what it saw. Oracle: each subscriber receives exactly the batches of offsets start+1, start+2, ... in order (no gap, duplicate or reordering across reconnects and terms), each batch matches the model's net effect of the request at that offset, a live stream has delivered everything up to the log head within 10 s, a closed leader ends its streams. Non-trivial there: a subscriber resumed at least once and >=2 writes.",
         "assumptions": ["DB level: stream delivery over a leader and across leader changes is checked by the leaderx/clusterx engines when built",
                         "a put and a later range delete covering it in one request: both entries are accepted (operation order is documented)"],
     },
